@@ -10,6 +10,7 @@
 From Coq Require Import ZArith List Bool.
 From BV Require Import Lib.PyVal Gen.K_worker Model.Worker Proofs.WorkerProofs.
 From BV Require Gen.G_pool_shape Model.Pool Proofs.PoolJobs Proofs.PoolInv Proofs.PoolTick Proofs.PoolCor.
+From BV Require Gen.G_pool_pins.
 Import ListNotations.
 Open Scope Z_scope.
 
@@ -72,3 +73,11 @@ Example C08_witness :
   map (fun x => (Pool.ready x, Pool.value x)) (Pool.jobs (Pool.run c08_cfg c08_tr))
   = [(true, Some (Pool.PTerminated 15))].
 Proof. vm_compute. reflexivity. Qed.
+
+(* the parent-side functions of billiard/pool.py these theorems are about are, on this run, the very
+   text the hand-written model was read against and is validated against by the correspondence
+   (digests of their ASTs, translate/kernels/poolpins.py): any edit of one of them breaks this
+   obligation and starts the deeper search for a failing history *)
+Theorem C08_modelled_code_is_the_validated_text : G_pool_pins.modelled_code_of_C08 = true.
+Proof. reflexivity. Qed.
+Print Assumptions C08_modelled_code_is_the_validated_text.
